@@ -55,6 +55,21 @@ theorem zeroSlots_rel (f : Ty → Option Nat) (hinj : Inj f) (n : Nat) (hb : Bel
   · have hl' : t ∉ ls := fun h' => hz (this.mpr h')
     simp [hz, hl', h t i hi]
 
+/-- literal values written after a failure keep the slot/environment correspondence -/
+theorem applyLits_rel (m : Maps) (len : Nat) (hs : SlotsOK m len) :
+    ∀ (nodes : List SNode) (v : VC) (e : Env), v.length = len → Rel m.d v e → Rel m.u v Env.empty →
+      Rel m.d (applyLitsV m nodes v) (applyLitsE nodes e) ∧ Rel m.u (applyLitsV m nodes v) Env.empty ∧
+      (applyLitsV m nodes v).length = len
+  | [], v, e, hl, hd, hu => ⟨hd, hu, hl⟩
+  | n :: rest, v, e, hl, hd, hu => by
+    simp only [applyLitsV, applyLitsE]
+    cases n.lit with
+    | none => exact applyLits_rel m len hs rest v e hl hd hu
+    | some x =>
+      exact applyLits_rel m len hs rest _ _ (by rw [wrOuts_length]; exact hl)
+        (wrOuts_rel m.d hs.dinj len hs.dlt n.outs _ v e hl hd)
+        (wrOuts_rel_other m.d m.u hs.disj n.outs _ v Env.empty hu)
+
 theorem exec_refines_spec_static (b : Beh) (m : Maps) (len : Nat) (hs : SlotsOK m len) :
     ∀ (nodes : List SNode), wfStatic m.d nodes = true →
       ∀ (v : VC) (down : Env) (st : St), v.length = len → Rel m.d v down → Rel m.u v Env.empty →
@@ -65,36 +80,46 @@ theorem exec_refines_spec_static (b : Beh) (m : Maps) (len : Nat) (hs : SlotsOK 
   | [], _, v, down, st, hl, hd, hu => by
     simp only [execStatic, specStatic]; exact ⟨trivial, hd, hu, hl⟩
   | n :: rest, hwf, v, down, st, hl, hd, hu => by
-    simp only [wfStatic, Bool.and_eq_true, List.all_eq_true] at hwf
+    simp only [wfStatic, Bool.and_eq_true] at hwf
     obtain ⟨⟨hins, hz⟩, hrest⟩ := hwf
-    have hrd := rdIns_eq m.d v down hd n.ins hins
-    simp only [execStatic, specStatic, hrd]
-    split
-    · rename_i hfail
-      simp only [Bool.and_eq_true] at hfail
-      have hf : n.fallible = true := hfail.1
-      simp only [hf, Bool.not_true, Bool.false_or, Bool.and_eq_true, List.all_eq_true, Bool.or_eq_true,
-        Bool.not_eq_true', List.contains_eq_mem, decide_eq_true_eq] at hz
-      have hzl : (zeroSlots m.d v n.zero).length = len := by rw [zeroSlots_length]; exact hl
-      have hzd : Rel m.d (zeroSlots m.d v n.zero) (down.zero (laterOuts rest)) := by
-        apply zeroSlots_rel m.d hs.dinj len hs.dlt n.zero (laterOuts rest) _ _ hl hd
-        intro t hsl
-        constructor
-        · intro hm
-          cases hz.2 t hm with
-          | inl h => rw [h] at hsl; cases hsl
-          | inr h => exact h
-        · intro hm
-          cases hz.1 t hm with
-          | inl h => rw [h] at hsl; cases hsl
-          | inr h => exact h
-      have hzu : Rel m.u (zeroSlots m.d v n.zero) Env.empty := zeroSlots_rel_other m.d m.u hs.disj n.zero _ Env.empty hu
-      refine ⟨rfl, ?_, ?_, by rw [wrOuts_length]; exact hzl⟩
-      · exact wrOuts_rel m.d hs.dinj len hs.dlt n.outs _ _ _ hzl hzd
-      · exact wrOuts_rel_other m.d m.u hs.disj n.outs _ _ Env.empty hzu
-    · exact exec_refines_spec_static b m len hs rest hrest _ _ _
+    cases hlit : n.lit with
+    | some x =>
+      simp only [execStatic, specStatic, hlit]
+      exact exec_refines_spec_static b m len hs rest hrest _ _ _
         (by rw [wrOuts_length]; exact hl)
         (wrOuts_rel m.d hs.dinj len hs.dlt n.outs _ v down hl hd)
         (wrOuts_rel_other m.d m.u hs.disj n.outs _ v Env.empty hu)
+    | none =>
+      simp only [hlit, Option.isSome_none, Bool.false_or, List.all_eq_true] at hins
+      have hrd := rdIns_eq m.d v down hd n.ins hins
+      simp only [execStatic, specStatic, hlit, hrd]
+      split
+      · rename_i hfail
+        simp only [Bool.and_eq_true] at hfail
+        have hf : n.fallible = true := hfail.1
+        simp only [hf, Bool.not_true, Bool.false_or, Bool.and_eq_true, List.all_eq_true, Bool.or_eq_true,
+          Bool.not_eq_true', List.contains_eq_mem, decide_eq_true_eq] at hz
+        have hzl : (zeroSlots m.d v n.zero).length = len := by rw [zeroSlots_length]; exact hl
+        have hzd : Rel m.d (zeroSlots m.d v n.zero) (down.zero (laterOuts rest)) := by
+          apply zeroSlots_rel m.d hs.dinj len hs.dlt n.zero (laterOuts rest) _ _ hl hd
+          intro t hsl
+          constructor
+          · intro hm
+            cases hz.2 t hm with
+            | inl h => rw [h] at hsl; cases hsl
+            | inr h => exact h
+          · intro hm
+            cases hz.1 t hm with
+            | inl h => rw [h] at hsl; cases hsl
+            | inr h => exact h
+        have hzu : Rel m.u (zeroSlots m.d v n.zero) Env.empty := zeroSlots_rel_other m.d m.u hs.disj n.zero _ Env.empty hu
+        refine ⟨rfl, ?_⟩
+        exact applyLits_rel m len hs rest _ _ (by rw [wrOuts_length]; exact hzl)
+          (wrOuts_rel m.d hs.dinj len hs.dlt n.outs _ _ _ hzl hzd)
+          (wrOuts_rel_other m.d m.u hs.disj n.outs _ _ Env.empty hzu)
+      · exact exec_refines_spec_static b m len hs rest hrest _ _ _
+          (by rw [wrOuts_length]; exact hl)
+          (wrOuts_rel m.d hs.dinj len hs.dlt n.outs _ v down hl hd)
+          (wrOuts_rel_other m.d m.u hs.disj n.outs _ v Env.empty hu)
 
 end Nject
